@@ -113,7 +113,11 @@ func (a *AddressDecMap) Decode(r stdio.Reader) (err error) {
 	if err := perunio.Decode(r, &mapLen); err != nil {
 		return errors.WithMessage(err, "decoding map length")
 	}
-	*a = make(map[wallet.BackendID]Address, mapLen)
+	if mapLen < 0 {
+		return errors.Errorf("negative map length: %d", mapLen)
+	}
+	// The length comes from the wire: do not use it as a size hint.
+	*a = make(map[wallet.BackendID]Address)
 	for i := range mapLen {
 		var idx int32
 		if err := perunio.Decode(r, &idx); err != nil {
@@ -135,11 +139,17 @@ func (a *AddressMapArray) Decode(r stdio.Reader) (err error) {
 	if err := perunio.Decode(r, &mapLen); err != nil {
 		return errors.WithMessage(err, "decoding array length")
 	}
-	*a = make([]map[wallet.BackendID]Address, mapLen)
+	if mapLen < 0 {
+		return errors.Errorf("negative array length: %d", mapLen)
+	}
+	// The length comes from the wire: grow the array as entries are decoded.
+	*a = make([]map[wallet.BackendID]Address, 0)
 	for i := range mapLen {
-		if err := perunio.Decode(r, (*AddressDecMap)(&(*a)[i])); err != nil {
+		var entry map[wallet.BackendID]Address
+		if err := perunio.Decode(r, (*AddressDecMap)(&entry)); err != nil {
 			return errors.WithMessagef(err, "decoding %d-th address map entry", i)
 		}
+		*a = append(*a, entry)
 	}
 	return nil
 }
